@@ -42,6 +42,9 @@ pub struct SingleNodeTaskAssignment {
     // The set of single node assigned tasks
     pub assigned_tasks: Set<TaskId>,
     pub free_resources: WorkerResources,
+    /// Amounts requested by the assigned tasks above what the worker provides.
+    /// Non-zero only while the worker is overbooked, see `WorkerResources::remove_with_debt`
+    pub overbooked_resources: WorkerResources,
     pub prefilled_tasks: Set<TaskId>,
 }
 
@@ -55,6 +58,7 @@ impl WorkerAssignment {
         Self::Sn(SingleNodeTaskAssignment {
             assigned_tasks: Default::default(),
             free_resources: wr.clone(),
+            overbooked_resources: wr.zeroed(),
             prefilled_tasks: Default::default(),
         })
     }
@@ -189,7 +193,8 @@ impl Worker {
     pub fn insert_sn_task(&mut self, task_id: TaskId, rq: &ResourceRequest) {
         match &mut self.assignment {
             WorkerAssignment::Sn(a) => {
-                a.free_resources.remove(rq);
+                a.free_resources
+                    .remove_with_debt(rq, &self.resources, &mut a.overbooked_resources);
                 assert!(a.assigned_tasks.insert(task_id));
             }
             WorkerAssignment::Mn(_) => unreachable!(),
@@ -215,7 +220,8 @@ impl Worker {
             WorkerAssignment::Sn(a) => {
                 assert!(a.prefilled_tasks.remove(&task_id));
                 assert!(a.assigned_tasks.insert(task_id));
-                a.free_resources.remove(rq);
+                a.free_resources
+                    .remove_with_debt(rq, &self.resources, &mut a.overbooked_resources);
             }
             WorkerAssignment::Mn(_) => unreachable!(),
         }
@@ -228,7 +234,8 @@ impl Worker {
                 if a.assigned_tasks.is_empty() {
                     self.idle_timestamp = Instant::now();
                 }
-                a.free_resources.add(rq, &self.resources);
+                a.free_resources
+                    .add_with_debt(rq, &self.resources, &mut a.overbooked_resources);
             }
             WorkerAssignment::Mn(_) => unreachable!(),
         }
